@@ -198,7 +198,16 @@ class LinearForms:
                 return None
             co = dict(co)
             co[one] = co.get(one, Fraction(0)) + c0
+            co = {x: c for x, c in co.items() if c != 0}
             c0 = Fraction(0)
+            if not co:
+                return ZERO
+            k = self.key((co, c0))
+            if k in self.form_signs:
+                return self.form_signs[k]
+            nk = self.key(({x: -c for x, c in co.items()}, Fraction(0)))
+            if nk in self.form_signs:
+                return {NEG: POS, POS: NEG, ZERO: ZERO}[self.form_signs[nk]]
         zero = next((x for x in self.val if self.kinds[x] == "pinned" and self.val[x] == 0), None)
         pos_atoms = {x: c for x, c in co.items() if self.kinds[x] in ("position", "pinned")}
         total = sum(pos_atoms.values(), Fraction(0))
@@ -309,7 +318,8 @@ DEFAULT_GRIDS = {"position": POSITION_GRID, "positive": POSITIVE_GRID, "nonzero"
 
 
 def comparison_forms(lf0: LinearForms, terms: Iterable[Term]) -> list[tuple]:
-    """Keys of the linear forms whose sign decides a comparison (lhs - rhs) or a min/max somewhere in the terms."""
+    """Keys of the linear forms whose sign decides a comparison (lhs - rhs) or a min/max somewhere in the terms. Operands that are
+    themselves piecewise linear (min / max / where of linear forms) contribute every alternative."""
     keys = []
     seen = set()
 
@@ -321,17 +331,58 @@ def comparison_forms(lf0: LinearForms, terms: Iterable[Term]) -> list[tuple]:
 
     probe = LinearForms(lf0.val, lf0.kinds, {})
     probe.sign = lambda form: None  # type: ignore[method-assign]  # min/max unresolved while collecting
+
+    def alts(t: Term, depth: int = 4) -> list:
+        u = unwrap(t)
+        direct = probe.lin(u)
+        if direct is not None:
+            return [direct]
+        if depth <= 0:
+            return []
+        if u[0] == "call" and u[1][0] == "global":
+            short = u[1][1].split(".")[-1]
+            if short in ("min", "max", "minimum", "maximum", "fmin", "fmax") and len(u[2]) == 2:
+                return (alts(u[2][0], depth - 1) + alts(u[2][1], depth - 1))[:16]
+            if short == "where" and len(u[2]) == 3:
+                return (alts(u[2][1], depth - 1) + alts(u[2][2], depth - 1))[:16]
+        if u[0] == "ifexp":
+            return (alts(u[2], depth - 1) + alts(u[3], depth - 1))[:16]
+        if u[0] == "binop" and u[1] in ("+", "-"):
+            out = []
+            for a in alts(u[2], depth - 1):
+                for b in alts(u[3], depth - 1):
+                    if u[1] == "+":
+                        out.append(probe.minus(a, ({x: -c for x, c in b[0].items()}, -b[1])))
+                    else:
+                        out.append(probe.minus(a, b))
+            return out[:16]
+        if u[0] == "unop" and u[1] == "-":
+            return [({x: -c for x, c in a[0].items()}, -a[1]) for a in alts(u[2], depth - 1)]
+        if u[0] == "binop" and u[1] in ("*", "/"):
+            l_, r_ = alts(u[2], depth - 1), alts(u[3], depth - 1)
+            out = []
+            for a in l_:
+                for b in r_:
+                    sa_, sb_ = probe.scalar(a), probe.scalar(b)
+                    if u[1] == "*" and sa_ is not None:
+                        out.append(({x: c * sa_ for x, c in b[0].items()}, b[1] * sa_))
+                    elif sb_ is not None and (u[1] == "*" or sb_ != 0):
+                        k_ = sb_ if u[1] == "*" else 1 / sb_
+                        out.append(({x: c * k_ for x, c in a[0].items()}, a[1] * k_))
+            return out[:16]
+        return []
+
     for t in terms:
         for s in walk(t):
+            pairs = []
             if s[0] == "cmp":
-                for a, b in zip(s[2], s[2][1:]):
-                    la, lb = probe.lin(a), probe.lin(b)
-                    if la is not None and lb is not None:
+                pairs = list(zip(s[2], s[2][1:]))
+            elif s[0] == "call" and s[1][0] == "global" and s[1][1].split(".")[-1] in ("min", "max", "minimum", "maximum", "fmin", "fmax") and len(s[2]) == 2:
+                pairs = [(s[2][0], s[2][1])]
+            for a, b in pairs:
+                for la in alts(a):
+                    for lb in alts(b):
                         add(probe.minus(la, lb))
-            if s[0] == "call" and s[1][0] == "global" and s[1][1] in ("min", "max", "numpy.minimum", "numpy.maximum", "numpy.fmin", "numpy.fmax") and len(s[2]) == 2:
-                la, lb = probe.lin(s[2][0]), probe.lin(s[2][1])
-                if la is not None and lb is not None:
-                    add(probe.minus(la, lb))
     return keys
 
 
@@ -583,6 +634,10 @@ def exact_value(t: Term, ev: OrderEval, alg) -> Any:  # type: ignore[no-untyped-
                     return go(args[1] if boolean(unwrap(args[0])).equals(Rat.const(1)) else args[2])
                 if short in ("isnan", "isfinite", "isinf", "logical_and", "logical_or", "logical_not"):
                     return boolean(u)
+                if short in ("full_like", "full") and len(args) >= 2:
+                    return go(args[1])  # an array filled with the value: elementwise, the value
+                if short in ("ones_like", "zeros_like"):
+                    return num(1 if short == "ones_like" else 0)
                 if short == "square":
                     return alg.reduce(go(args[0]).pow(2))
                 if short in ("sqrt", "exp", "log", "cos", "sin"):
@@ -597,7 +652,12 @@ def exact_value(t: Term, ev: OrderEval, alg) -> Any:  # type: ignore[no-untyped-
                     la, lb = lf.lin(args[0]), lf.lin(args[1])
                     s_ = lf.sign(lf.minus(la, lb)) if la is not None and lb is not None else None
                     if s_ is None:
-                        raise NotAlgebraic(f"undecided {short}")
+                        ra_, rb_ = go(args[0]), go(args[1])
+                        s_ = rat_sign(ra_ - rb_, lf, alg)
+                        if s_ is None:
+                            raise NotAlgebraic(f"undecided {short}")
+                        first_smaller = s_ in (NEG, ZERO)
+                        return ra_ if first_smaller == (short in ("min", "minimum", "fmin")) else rb_
                     first_smaller = s_ in (NEG, ZERO)
                     want_small = short in ("min", "minimum", "fmin")
                     return go(args[0] if first_smaller == want_small else args[1])
@@ -817,26 +877,182 @@ def rat_sign(r, lf: LinearForms, alg, depth: int = 4) -> str | None:  # type: ig
             if sb_ == ZERO or sb_ == sa_:
                 return sa_
             # opposite signs: a*q > -b  <=>  a^2 * A > b^2 (both sides non-negative), oriented by the sign of a
-            diff = Rat(a_ * a_) * q.args[0] - Rat(b_ * b_)
+            diff = alg.reduce(Rat(a_ * a_) * q.args[0] - Rat(b_ * b_))
             sd = rat_sign(diff, lf, alg, depth - 1) if depth > 0 else None
             return _mul_sign(sa_, sd) if sd is not None else None
-        # linear factors: differences of atoms that occur in the polynomial
+        # linear factors: differences of atoms that occur in the polynomial, and atom - pinned constant
         if budget > 0:
             atoms = sorted((x for x in pl.symbols() if x in lf.val and lf.kinds[x] in ("position", "pinned")), key=repr)
+            pins = sorted({lf.val[x] for x in lf.val if lf.kinds[x] == "pinned"})
+            cands: list[tuple[dict, Fraction]] = []
             for i_, a in enumerate(atoms):
                 for b in atoms[i_ + 1:]:
-                    q_ = divide(pl, {a: Fraction(1), b: Fraction(-1)})
-                    if q_ is not None:
-                        return _mul_sign(lf.sign(({a: Fraction(1), b: Fraction(-1)}, Fraction(0))), poly_sign(q_, budget - 1))
+                    cands.append(({a: Fraction(1), b: Fraction(-1)}, Fraction(0)))
+                for c_ in pins:
+                    cands.append(({a: Fraction(1)}, -Fraction(c_)))
+            for lin_, c0_ in cands:
+                q_ = poly_divide(pl, lin_, c0_)
+                if q_ is not None:
+                    return _mul_sign(lf.sign((dict(lin_), c0_)), poly_sign(q_, budget - 1))
         return None
 
-    sn = poly_sign(r.n)
+    def with_intervals(pl: Poly) -> str | None:
+        s_ = poly_sign(pl)
+        if s_ is None:
+            s_ = interval_sign(pl, lf, alg)
+        return s_
+
+    sn = with_intervals(r.n)
     if sn == ZERO:
         return ZERO
-    sd = poly_sign(r.d)
+    sd = with_intervals(r.d)
     if sn is None or sd is None or sd == ZERO:
         return None
     return POS if sn == sd else NEG
+
+
+# --------------------------------------------------------------------------------------------- interval fallback
+class Interval:
+    """[lo, hi] over the rationals with open/closed ends (+-inf allowed)."""
+
+    __slots__ = ("lo", "hi", "lo_open", "hi_open")
+
+    def __init__(self, lo: Any, hi: Any, lo_open: bool = False, hi_open: bool = False):
+        self.lo, self.hi, self.lo_open, self.hi_open = lo, hi, lo_open or lo == -INF, hi_open or hi == INF
+
+    @staticmethod
+    def point(v: Any) -> "Interval":
+        return Interval(v, v)
+
+    def __add__(self, o: "Interval") -> "Interval":
+        return Interval(self.lo + o.lo, self.hi + o.hi, self.lo_open or o.lo_open, self.hi_open or o.hi_open)
+
+    def scale(self, c: Fraction) -> "Interval":
+        if c == 0:
+            return Interval.point(Fraction(0))
+        if c > 0:
+            return Interval(self.lo * c, self.hi * c, self.lo_open, self.hi_open)
+        return Interval(self.hi * c, self.lo * c, self.hi_open, self.lo_open)
+
+    def __mul__(self, o: "Interval") -> "Interval":
+        cands = []
+        for a, ao in ((self.lo, self.lo_open), (self.hi, self.hi_open)):
+            for b, bo in ((o.lo, o.lo_open), (o.hi, o.hi_open)):
+                if (a == 0 and not ao) or (b == 0 and not bo):
+                    cands.append((Fraction(0), False))
+                elif a == 0 or b == 0:
+                    cands.append((Fraction(0), True))  # 0 * inf treated as a limit: never attained
+                else:
+                    cands.append((a * b, ao or bo))
+        lo = min(c[0] for c in cands)
+        hi = max(c[0] for c in cands)
+        lo_open = all(c[1] for c in cands if c[0] == lo)
+        hi_open = all(c[1] for c in cands if c[0] == hi)
+        return Interval(lo, hi, lo_open, hi_open)
+
+    def power(self, k: int) -> "Interval":
+        out = Interval.point(Fraction(1))
+        for _ in range(k):
+            out = out * self
+        if k % 2 == 0 and k > 0:
+            lo = max(out.lo, Fraction(0))
+            out = Interval(lo, out.hi, out.lo_open and out.lo >= 0, out.hi_open)
+            if self.lo <= 0 <= self.hi and not ((self.lo == 0 and self.lo_open) or (self.hi == 0 and self.hi_open)):
+                out = Interval(Fraction(0), out.hi, False, out.hi_open)
+        return out
+
+    def sign(self) -> str | None:
+        if self.lo == self.hi == 0:
+            return ZERO
+        if self.lo > 0 or (self.lo == 0 and self.lo_open):
+            return POS
+        if self.hi < 0 or (self.hi == 0 and self.hi_open):
+            return NEG
+        return None
+
+
+def atom_interval(a: Any, lf: LinearForms, alg, depth: int = 3) -> Interval:  # type: ignore[no-untyped-def]
+    """What the order type says about the value of a symbol: pinned constants are points, other atoms lie strictly between the
+    neighbouring pinned constants (or coincide with one)."""
+    from .algebra import Fn
+
+    everything = Interval(-INF, INF)
+    if isinstance(a, Fn):
+        if depth <= 0:
+            return everything
+        arg = rat_interval(a.args[0], lf, alg, depth - 1)
+        if a.name == "sqrt" and arg is not None and arg.lo >= 0:
+            import math
+
+            def rt(v: Any, up: bool) -> Any:
+                if v == INF:
+                    return INF
+                f_ = Fraction(math.isqrt(v.numerator * v.denominator), v.denominator)  # floor of the root
+                if f_ * f_ == v:
+                    return f_
+                return f_ + Fraction(1, v.denominator) if up else f_
+
+            lo, hi = rt(arg.lo, False), rt(arg.hi, True)
+            return Interval(lo, hi, arg.lo_open and lo * lo == arg.lo, arg.hi_open and hi != INF and hi * hi == arg.hi)
+        if a.name == "exp":
+            return Interval(Fraction(0), INF, True, True)
+        if a.name == "abs":
+            return Interval(Fraction(0), INF, False, True)
+        if a.name in ("cos", "sin"):
+            return Interval(Fraction(-1), Fraction(1))
+        return everything
+    if a == "pi":
+        return Interval(Fraction(3), Fraction(4), True, True)
+    if a not in lf.val:
+        if isinstance(a, tuple) and a[:2] == ("attr", SELF) and a[2] == "height":
+            return Interval(Fraction(0), INF, True, True)
+        return everything
+    kind, v = lf.kinds[a], lf.val[a]
+    if v in (INF, -INF):
+        return everything
+    if kind == "pinned":
+        return Interval.point(v)
+    if kind == "positive":
+        return Interval(Fraction(0), INF, True, True)
+    if kind == "nonzero":
+        return Interval(Fraction(0), INF, True, True) if v > 0 else Interval(-INF, Fraction(0), True, True)
+    pins = sorted(lf.val[p_] for p_ in lf.val if lf.kinds[p_] == "pinned")
+    if v in pins:
+        return Interval.point(v)
+    below = [q for q in pins if q < v]
+    above = [q for q in pins if q > v]
+    return Interval(below[-1] if below else -INF, above[0] if above else INF, True, True)
+
+
+def poly_interval(pl, lf: LinearForms, alg, depth: int = 3):  # type: ignore[no-untyped-def]
+    tot = Interval.point(Fraction(0))
+    for m, c in pl.t.items():
+        term = Interval.point(Fraction(1))
+        for q, e in m:
+            term = term * atom_interval(q, lf, alg, depth).power(e)
+        tot = tot + term.scale(c)
+    return tot
+
+
+def rat_interval(r, lf: LinearForms, alg, depth: int = 3):  # type: ignore[no-untyped-def]
+    n, d = poly_interval(r.n, lf, alg, depth), poly_interval(r.d, lf, alg, depth)
+    sd = d.sign()
+    if sd not in (POS, NEG):
+        return None
+    if sd == NEG:
+        n, d = n.scale(Fraction(-1)), d.scale(Fraction(-1))
+    if d.lo == 0:
+        inv = Interval(Fraction(1) / d.hi if d.hi != INF else Fraction(0), INF, d.hi_open or d.hi == INF, True)
+    else:
+        inv = Interval(Fraction(1) / d.hi if d.hi != INF else Fraction(0), Fraction(1) / d.lo, d.hi_open or d.hi == INF, d.lo_open)
+    return n * inv
+
+
+def interval_sign(pl, lf: LinearForms, alg) -> str | None:  # type: ignore[no-untyped-def]
+    try:
+        return poly_interval(pl, lf, alg).sign()
+    except (TypeError, ZeroDivisionError, OverflowError):
+        return None
 
 
 def domain(r, lf: LinearForms, alg) -> bool | None:  # type: ignore[no-untyped-def]
@@ -887,12 +1103,12 @@ def rat_sign_poly(pl, lf: LinearForms, alg):  # type: ignore[no-untyped-def]
     return rat_sign(Rat(pl), lf, alg)
 
 
-def poly_divide(pl, lin: dict[Any, Fraction]):  # type: ignore[no-untyped-def]
-    """Exact division of a polynomial by the linear polynomial sum(c*v); None when it does not divide."""
+def poly_divide(pl, lin: dict[Any, Fraction], const: Fraction = Fraction(0)):  # type: ignore[no-untyped-def]
+    """Exact division of a polynomial by the linear polynomial sum(c*v) + const; None when it does not divide."""
     from .algebra import Poly
 
     v, cv = sorted(lin.items(), key=lambda kv: repr(kv[0]))[0]
-    rest = Poly({((q, 1),): c for q, c in lin.items() if q != v})
+    rest = Poly({((q, 1),): c for q, c in lin.items() if q != v}) + Poly.const(const)
     rem = pl
     quo = Poly()
     for _ in range(12):
@@ -928,15 +1144,17 @@ def factor_poly(pl, lf: LinearForms):  # type: ignore[no-untyped-def]
         for b in atoms[i_ + 1:]:
             cands.append({a: Fraction(1), b: Fraction(-1)})
             cands.append({a: Fraction(1), b: Fraction(1)})
-    for lin in cands:
+    pins = sorted({lf.val[x] for x in lf.val if lf.kinds[x] == "pinned"})
+    cands2 = [(lin, Fraction(0)) for lin in cands] + [({a: Fraction(1)}, -Fraction(c_)) for a in atoms for c_ in pins if c_ != 0]
+    for lin, c0_ in cands2:
         mult = 0
         while not cof.is_const():
-            q_ = poly_divide(cof, lin)
+            q_ = poly_divide(cof, lin, c0_)
             if q_ is None:
                 break
             cof, mult = q_, mult + 1
         if mult:
-            factors.append((Poly({((v, 1),): c for v, c in lin.items()}), mult))
+            factors.append((Poly({((v, 1),): c for v, c in lin.items()}) + Poly.const(c0_), mult))
     if not cof.is_const():
         return None
     return cof.const_value(), factors
@@ -972,3 +1190,95 @@ def make_algebra(lf: LinearForms):
 
     alg = Algebra(lambda r: rat_sign(r, lf, alg), root)
     return alg
+
+
+def term_interval(t: Term, ev: OrderEval, alg) -> Interval | None:  # type: ignore[no-untyped-def]
+    """Interval of a term's value at the order type, evaluated on the term as written (tighter than on the expanded polynomial)."""
+    lf = ev.lf
+
+    def go(t: Term) -> Interval | None:
+        u = unwrap(t)
+        if u in lf.val:
+            return atom_interval(u, lf, alg)
+        k = u[0]
+        if k == "const" and isinstance(u[1], (int, float)) and not isinstance(u[1], bool) and u[1] == u[1] and abs(u[1]) != INF:
+            return Interval.point(Fraction(u[1]))
+        if k == "unop" and u[1] == "-":
+            a = go(u[2])
+            return a.scale(Fraction(-1)) if a is not None else None
+        if k == "binop" and u[1] in ("+", "-", "*", "/", "**"):
+            a = go(u[2])
+            if a is None:
+                return None
+            if u[1] == "**":
+                e = unwrap(u[3])
+                if e[0] == "const" and isinstance(e[1], (int, float)) and float(e[1]).is_integer() and 0 <= e[1] <= 8:
+                    return a.power(int(e[1]))
+                return None
+            b = go(u[3])
+            if b is None:
+                return None
+            if u[1] == "+":
+                return a + b
+            if u[1] == "-":
+                return a + b.scale(Fraction(-1))
+            if u[1] == "*":
+                return a * b
+            sb = b.sign()
+            if sb not in (POS, NEG) or b.lo in (INF, -INF) or b.hi in (INF, -INF) or b.lo == 0 or b.hi == 0:
+                return None
+            inv = Interval(Fraction(1) / b.hi, Fraction(1) / b.lo, b.hi_open, b.lo_open)
+            return a * inv
+        if k == "call" and u[1][0] == "global":
+            short = u[1][1].split(".")[-1]
+            args = u[2]
+            if short == "where" and len(args) == 3:
+                c = ev.ev(args[0])
+                if is_bool(c) and len(c) == 1:
+                    return go(args[1] if True in c else args[2])
+                return None
+            if short == "square" and args:
+                a = go(args[0])
+                return a.power(2) if a is not None else None
+            if short == "sqrt" and args:
+                a = go(args[0])
+                if a is None or a.lo < 0:
+                    return None
+                import math
+
+                def rt(v: Any, up: bool) -> Any:
+                    if v == INF:
+                        return INF
+                    v = Fraction(v)
+                    scale = 10 ** 6
+                    f_ = Fraction(math.isqrt(v.numerator * scale * scale // v.denominator), scale)
+                    if f_ * f_ == v:
+                        return f_
+                    return f_ + Fraction(1, scale) if up else f_
+
+                lo, hi = rt(a.lo, False), rt(a.hi, True)
+                return Interval(lo, hi, a.lo_open and lo * lo == a.lo, a.hi_open and hi != INF and hi * hi == a.hi)
+            if short in ("min", "max", "minimum", "maximum") and len(args) == 2:
+                a, b = go(args[0]), go(args[1])
+                if a is None or b is None:
+                    return None
+                pick = min if short in ("min", "minimum") else max
+                lo, hi = pick(a.lo, b.lo), pick(a.hi, b.hi)
+                return Interval(lo, hi, (a.lo_open if lo == a.lo else b.lo_open), (a.hi_open if hi == a.hi else b.hi_open))
+            if short in ("full_like", "full") and len(args) >= 2:
+                return go(args[1])
+            if short in ("abs", "absolute", "fabs") and args:
+                a = go(args[0])
+                if a is None:
+                    return None
+                if a.lo >= 0:
+                    return a
+                if a.hi <= 0:
+                    return a.scale(Fraction(-1))
+                return Interval(Fraction(0), max(-a.lo, a.hi))
+        return None
+
+    try:
+        return go(t)
+    except (TypeError, ZeroDivisionError, OverflowError):
+        return None
